@@ -409,6 +409,59 @@ func (r *runner) crash() *violation {
 	return r.reopenClosed()
 }
 
+// burst: more blocks than the write queue holds (MAX_BLOCKS_TO_WRITE = 1024; BlockAdd flushes
+// when the queue is full) are added back to back without Idle - a sync burst of small blocks -,
+// every one is read back while queued / after the flush, and again after a restart. Its own
+// map model (1100 one-transaction blocks of 81 bytes), outside the four-block alphabet.
+func (r *runner) burst() *violation {
+	const n = 1100
+	type bb struct {
+		raw  []byte
+		hash *btc.Uint256
+	}
+	var l []bb
+	for k := 0; k < n; k++ {
+		raw := append(prng(fmt.Sprint("burst", k), 80), 1)
+		l = append(l, bb{raw, btc.NewSha2Hash(raw[:80])})
+	}
+	for k, b := range l {
+		bl, err := btc.NewBlock(append([]byte(nil), b.raw...))
+		if err != nil {
+			ev.HarnessError("btc.NewBlock(burst %d): %v", k, err)
+		}
+		if err := r.db.BlockAdd(uint32(1000+k), bl); err != nil {
+			return r.fail("burst/add-error", "BlockAdd of block %d of a burst of %d fails: %v", k, n, err)
+		}
+	}
+	all := func(when string) *violation {
+		for k, b := range l {
+			data, _, err := r.db.BlockGet(b.hash)
+			if err != nil {
+				return r.fail("burst/unreadable", "%s: block %d of a burst of %d cannot be read: %v", when, k, n, err)
+			}
+			if !bytes.Equal(data, b.raw) {
+				return r.fail("burst/wrong-bytes", "%s: block %d of a burst of %d reads back as other bytes", when, k, n)
+			}
+		}
+		return nil
+	}
+	if v := all("right after the burst"); v != nil {
+		return v
+	}
+	r.db.Close()
+	cnt := 0
+	r.db = chain.NewBlockDBExt(r.dir, r.opts())
+	r.db.LoadBlockIndex(nil, func(_ *chain.Chain, hash, hdr []byte, height, blen, txs uint32) { cnt++ })
+	if cnt != n {
+		return r.fail("burst/listing", "after a restart the index lists %d blocks, %d were stored", cnt, n)
+	}
+	if v := all("after a restart"); v != nil {
+		return v
+	}
+	r.db.Close()
+	return nil
+}
+
 func (r *runner) reopenClosed() *violation {
 	l := r.open()
 	r.queue = nil
@@ -661,6 +714,15 @@ func replay(c cfg, alpha []int, hist []string, audit bool) (res result) {
 	l := r.open()
 	if v := r.checkListing(l); v != nil {
 		res.Viol = v
+		return
+	}
+	if len(hist) == 1 && hist[0] == "burst" {
+		r.curEv, r.trace = "burst", []string{"burst"}
+		res.Ev = "burst"
+		res.Viol = r.burst()
+		if res.Viol == nil {
+			res.Key = "burst-ok"
+		}
 		return
 	}
 	for _, e := range hist {
@@ -1082,6 +1144,20 @@ func main() {
 			ss2 = append(ss2, &search{c: c, alpha: pairs[i%len(pairs)], depth: pairDepth})
 		}
 	}
+	// burst family: one history per (compression, data-file limit) with retention off
+	bursts := 0
+	for _, c := range cfgs {
+		if c.Keep != 0 || c.Backup || c.Cache != 2 {
+			continue
+		}
+		bursts++
+		for _, res := range x.do(job{Cfg: c, Hist: []string{"burst"}}) {
+			if res.Viol != nil {
+				x.violCnt[res.Viol.Key]++
+				x.report(c, []string{"burst"}, res.Viol)
+			}
+		}
+	}
 	x.exploreAll(ss2, samples)
 	x.exploreAll(ss4, samples)
 	ss = append(append(ss, ss4...), ss2...)
@@ -1110,6 +1186,7 @@ func main() {
 		"transitions":                          trans,
 		"traces_validated_against_impl":        trans,
 		"configurations":                       len(cfgs),
+		"burst_histories":                      bursts,
 		"depth_bound":                          map[string]int{"4-blocks": depth, "2-blocks": pairDepth},
 		"min_depth_completed":                  depthDone,
 		"searches":                             len(ss),
